@@ -17,7 +17,8 @@ from typing import List, Set
 
 from ..cfg import CFG
 from ..ledger import POOL_MOD, PoolModel
-from ..model import AnalysisError, FuncInfo, Repo, dotted, norm, walk_no_nested
+from ..model import (AnalysisError, FuncInfo, Repo, call_name, dotted, norm,
+                     walk_no_nested)
 from .c15 import (SCOPE_NOTE, _call_sites, _seg_clear, ledger_rule, short)
 
 
@@ -467,6 +468,70 @@ def run(repo: Repo, ctx) -> None:
     ctx.ob('C16.R5', f'{short(mst)}:arms-timer', ok,
            '_maybe_schedule_tick does not arm the timer for _tick', mst.loc,
            sample='_htick = loop.call_later(..., self._tick)')
+
+    _r6(repo, ctx, pm)
+
+
+def _r6(repo: Repo, ctx, pm) -> None:
+    """Demand is never dropped: a discarded connection is replaced, and the
+    tick cannot take the quiet early exit while the pool is starving."""
+    ctx.floor('C16.R6', 2)
+    rel = repo.find_method(pm.pool.qualname, 'release')
+    ctx.saw(rel)
+    g = CFG(rel.node, raise_pred=pm.raise_pred(rel), assert_raises=False)
+    dt = [n.id for n in g.nodes if n.kind == 'test'
+          and norm(n.ast) == 'discard']
+    disc = [n.id for n in g.nodes if any(
+        call_name(c) == 'self._schedule_discard' or
+        (call_name(c) or '').endswith('_schedule_discard')
+        for c in g.node_calls(n))]
+    newc = [n.id for n in g.nodes if any(
+        (call_name(c) or '').endswith('_schedule_new_conn')
+        for c in g.node_calls(n))]
+    if not dt or not disc:
+        raise AnalysisError('C16.R6: discard arm of Pool.release not found')
+    ok = bool(newc) and all(
+        g.always_after(d, newc, exits={g.exit}) for d in disc)
+    ctx.ob('C16.R6', 'Pool.release:discard-is-replaced', ok,
+           'a connection released with discard=True is scheduled for '
+           'closing without a replacement being scheduled on every path: '
+           'its capacity slot stays taken until the close finishes, so an '
+           'acquire arriving meanwhile queues at full capacity, and when '
+           'the slot frees nothing creates a connection for it (blocked '
+           'forever on an empty pool)', rel.loc,
+           sample='_schedule_discard -> _schedule_new_conn on every path')
+    # the quiet early exit and the starving test are complementary at the
+    # capacity bound: demand == capacity must reach the starving handling
+    tick = repo.find_method(pm.pool.qualname, '_tick')
+    ctx.saw(tick)
+    starving = [a for a in ast.walk(tick.node) if isinstance(a, ast.Assign)
+                and norm(a.targets[0]) == 'self._is_starving'
+                and isinstance(a.value, ast.Compare)]
+    if len(starving) != 1:
+        raise AnalysisError('C16.R6: _is_starving assignment of _tick not '
+                            'found')
+    sc = starving[0].value
+    need = norm(sc.left)
+    bound = norm(sc.comparators[0])
+    exits = [n for n in ast.walk(tick.node) if isinstance(n, ast.If)
+             and isinstance(n.test, ast.Compare)
+             and norm(n.test.comparators[0]) == bound
+             and norm(n.test.left) != need
+             and any(isinstance(x, ast.Return) for x in n.body)]
+    if not exits:
+        raise AnalysisError('C16.R6: early exit of _tick on the capacity '
+                            'bound not found')
+    for e in exits:
+        pair = (type(e.test.ops[0]).__name__, type(sc.ops[0]).__name__)
+        ok = pair in (('Lt', 'GtE'), ('LtE', 'Gt'))
+        ctx.ob('C16.R6', f'Pool._tick:early-exit-vs-starving', ok,
+               f'_tick returns early when `{norm(e.test)}` while the pool is '
+               f'declared starving when `{norm(sc)}`: at demand == capacity '
+               f'with every connection idle in other blocks only the '
+               f'starving-mode quota reset hands connections over, so the '
+               f'early exit must be strictly below the bound (requests for '
+               f'new databases wait forever otherwise)',
+               tick.loc, sample=f'{pair[0]} / {pair[1]}')
 
 
 class _Body:
